@@ -116,9 +116,9 @@ def tier_plan(prop, tier):
         "C13": [("asan", 1200 if q else 120000)],
         "C14": [("plain", 3000 if q else 150000)],
         "C15": [("plain", 300 if q else 4000)],
-        "C16": [("plain", 200 if q else 6000), ("asan", 60 if q else 2500)],
+        "C16": [("plain", 500 if q else 6000), ("asan", 100 if q else 2500)],
         "C17": [("plain", 192 if q else 2400)],
-        "C18": [("plain", 1500 if q else 100000), ("tsan", 200 if q else 12000)],
+        "C18": [("plain", 700 if q else 100000), ("tsan", 120 if q else 12000)],
     }
     return P[prop]
 
@@ -544,6 +544,202 @@ ASSUME = {
 }
 
 
+C19_CONFIGS = [("Debug", "TRUE"), ("Debug", "FALSE"), ("RelWithDebInfo", "TRUE"), ("RelWithDebInfo", "FALSE"), ("Release", "TRUE"), ("Release", "FALSE")]
+
+
+def check_c19(tier, only=None):
+    """Six cmake builds of the library ({Debug,-O0; RelWithDebInfo,-O2; Release,-O3} x {shared, static}) in a scratch
+    directory that is removed afterwards; the same seeds are executed by six drivers and the traces are diffed."""
+    seed = int(os.environ.get("VERIF_SEED", "1"))
+    t0 = time.time()
+    n = 500 if tier == "quick" else 60000
+    scratch = tempfile.mkdtemp(prefix="verif-c19-")
+    problems, reported, notes = [], [], []
+    res = {}
+    samples = []
+    try:
+        # sim objects once, without the link-time wraps (shared libraries cannot be wrapped): real directory as file layer
+        objs = []
+        procs = []
+        for f in sorted(glob.glob(os.path.join(SIM, "*.cpp"))):
+            o = os.path.join(scratch, "sim_" + os.path.basename(f)[:-4] + ".o")
+            objs.append(o)
+            procs.append(subprocess.Popen(f"g++ -std=c++17 -O1 -g -DSIM_NO_WRAP -I{REPO}/include -I{SIM} -pthread -w -c {f} -o {o}", shell=True, stderr=subprocess.PIPE))
+        builds = []
+        for i, (bt, shared) in enumerate(C19_CONFIGS):
+            b = os.path.join(scratch, f"b{i}")
+            cmd = (f"cmake -G Ninja -S {REPO} -B {b} -DCMAKE_BUILD_TYPE={bt} -DBUILD_SHARED_LIBS={shared} -DBUILD_EXAMPLE=FALSE -DBUILD_TESTS=OFF "
+                   f"> {b}.log 2>&1 && cmake --build {b} -j 3 >> {b}.log 2>&1")
+            builds.append((i, bt, shared, b, subprocess.Popen(cmd, shell=True)))
+        for p in procs:
+            _, err = p.communicate()
+            if p.returncode != 0:
+                problems.append("driver compile failed: " + err.decode(errors="replace")[-400:])
+        drivers = []
+        for i, bt, shared, b, p in builds:
+            p.wait()
+            libs = glob.glob(os.path.join(b, "libezc3d*.so")) + glob.glob(os.path.join(b, "libezc3d*.a"))
+            if p.returncode != 0 or not libs:
+                problems.append(f"cmake build {bt}/shared={shared} failed: " + open(b + ".log").read()[-400:])
+                continue
+            lib = libs[0]
+            drv = os.path.join(scratch, f"drv{i}")
+            link = f"g++ -O1 -g -pthread -rdynamic {' '.join(objs)} {lib} -Wl,-rpath,{b} -ldl -o {drv}"
+            r = subprocess.run(link, shell=True, stderr=subprocess.PIPE)
+            if r.returncode != 0:
+                problems.append("driver link failed: " + r.stderr.decode(errors="replace")[-400:])
+                continue
+            drivers.append((i, f"{bt}/{'shared' if shared == 'TRUE' else 'static'}", drv))
+        t_built = time.time()
+        if len(drivers) == 6 and not problems:
+            per = max(1, NCPU // 6)
+            runs = []
+            for i, name, drv in drivers:
+                for w in range(per):
+                    idx = [only] if only is not None else list(range(w, n, per))
+                    if only is not None and w > 0:
+                        continue
+                    root = os.path.join(scratch, f"run{i}_{w}")
+                    os.makedirs(root)
+                    runs.append((i, name, subprocess.Popen([drv, "worker", "--prop", "C19", "--tier", tier, "--seed", str(seed), "--only", ",".join(map(str, idx)),
+                                                            "--root", root, "--steps"], stdout=subprocess.PIPE, stderr=subprocess.STDOUT)))
+            for i, name, p in runs:
+                out, _ = p.communicate()
+                if p.returncode != 0:
+                    problems.append(f"driver {name} exited {p.returncode}: {out.decode(errors='replace')[-300:]}")
+                for line in out.decode(errors="replace").splitlines():
+                    if line.startswith("RES "):
+                        d = dict(kv.split("=", 1) for kv in line[4:].split() if "=" in kv)
+                        res.setdefault(int(d["i"]), {})[name] = [d["th"], d["img"], d.get("nt", "0"), None]
+                    elif line.startswith("STEPS "):
+                        parts = line.split()
+                        idx = int(parts[1][2:])
+                        if idx in res and name in res[idx]:
+                            res[idx][name][3] = parts[2:]
+                    elif line.startswith("SAMPLE ") and len(samples) < 4 and i == 0:
+                        samples.append(line[7:])
+            known, _ = load_known()
+            known_hit = {}
+            os.makedirs(REPLAYS, exist_ok=True)
+            for idx in sorted(res):
+                per_build = res[idx]
+                if len(per_build) != 6:
+                    problems.append(f"case {idx} was not executed by all six builds: {sorted(per_build)}")
+                    continue
+                sigs = {name: (v[0], v[1]) for name, v in per_build.items()}
+                if len(set(sigs.values())) > 1:
+                    names = sorted(per_build)
+                    ref = per_build[names[0]][3] or []
+                    first = None
+                    for nm in names[1:]:
+                        st = per_build[nm][3] or []
+                        for k in range(max(len(ref), len(st))):
+                            if k >= len(ref) or k >= len(st) or ref[k] != st[k]:
+                                first = k if first is None else min(first, k)
+                                break
+                    key = f"C19/divergence/step{first}"
+                    groups = {}
+                    for nm, sg in sigs.items():
+                        groups.setdefault(sg, []).append(nm)
+                    detail = "builds disagree: " + " vs ".join("{" + ",".join(v) + "}" for v in groups.values())
+                    # which operation is it? ask a driver for the case text
+                    txt = subprocess.run([drivers[0][2], "gen", "--prop", "C19", "--tier", tier, "--seed", str(seed), "--index", str(idx)], stdout=subprocess.PIPE).stdout.decode(errors="replace")
+                    steps = [l for l in txt.splitlines() if l.startswith("step ")]
+                    if first is not None and first < len(steps):
+                        key = "C19/divergence/" + steps[first].split()[1]
+                        detail += "; first diverging step " + str(first) + ": " + steps[first][:160]
+                    kk = key_matches(key, known)
+                    if kk:
+                        known_hit[kk] = known_hit.get(kk, 0) + 1
+                    elif not any(r[0] == key for r in reported):
+                        path = os.path.join(REPLAYS, f"C19-{seed}-{idx}.replay")
+                        with open(path, "w") as f:
+                            f.write(f"# C19 replay: ./check replay re-runs this index on six fresh builds\nc19 seed={seed} tier={tier} index={idx}\n# {detail}\n" + txt)
+                        reported.append((key, path, detail, 1))
+        elif not problems:
+            problems.append("fewer than six drivers")
+    finally:
+        shutil.rmtree(scratch, ignore_errors=True)
+    wall = time.time() - t0
+    known_hit = locals().get("known_hit", {})
+    nontrivial = set(v[sorted(v)[0]][0] for v in res.values() if len(v) == 6 and v[sorted(v)[0]][2] == "1")
+    ev = {
+        "property_id": "C19", "tier": tier, "seed": seed, "level": "exploration",
+        "coverage": {
+            "evaluations": len(res) * 6, "distinct_nontrivial": len(nontrivial),
+            "rule": "each seed is one history of the C01/C03/C04/C14 generators (fault-free, incl. print() and rates at the float->int conversion edges) executed by six drivers, one per cmake build {Debug -O0, RelWithDebInfo -O2, Release -O3} x {shared, static}; evaluations = executions; non-trivial = at least one mutating call succeeded; distinct = distinct trace hash; the oracle is equality of trace and saved-image hashes across the six",
+            "samples": samples or ["(no sample)"], "cases_run": len(res), "builds": [f"{bt}/{'shared' if sh == 'TRUE' else 'static'}" for bt, sh in C19_CONFIGS],
+            "runs_per_hour": int(len(res) * 6 / wall * 3600) if wall > 0 else 0,
+            "build_wall_s": round(locals().get("t_built", t0) - t0, 1),
+            "real_vs_stub": {"ezc3d": "real, six cmake builds of the current working tree", "file layer": "REAL per-run temporary directory (shared libraries cannot be link-wrapped); no faults, the property has none",
+                             "std::fstream": "real (dynamic libstdc++)", "scheduler / allocator seams": "not used"},
+            "fault_kinds_fired": {}, "known_findings_hit": known_hit, "harness_problems": problems,
+            "seeds": {"VERIF_SEED": seed, "indices": f"0..{max(list(res) + [0])}"},
+        },
+        "assumptions": ["trace digests (per-step snapshot hashes with floats as bit patterns, exception class names, print() text, saved file images) capture every value the API returns",
+                        "the drivers' own code is compiled identically for all six; only the library differs"],
+        "wall_s": round(wall, 1), "violations": len(reported),
+    }
+    os.makedirs(EVID, exist_ok=True)
+    with open(os.path.join(EVID, "C19.json"), "w") as f:
+        json.dump(ev, f, indent=1, sort_keys=True)
+    for kk, nhit in sorted(known_hit.items()):
+        log(f"KNOWN-FINDING: property=C19 key={kk} hits={nhit}")
+    for (key, path, detail, nocc) in reported:
+        log(f"VIOLATION property=C19 replay={path} key={key} detail={detail}")
+    log(f"[C19 {tier}] cases={len(res)} x 6 builds distinct_nontrivial={len(nontrivial)} wall={wall:.1f}s violations={len(reported)}")
+    if problems:
+        for h in problems[:10]:
+            log("HARNESS-PROBLEM: " + h)
+        if not reported:
+            return 2
+    return 1 if reported else 0
+
+
+def selftest(props, n):
+    """Determinism: every run seed executed in different processes, at different worker counts and by differently
+    compiled simulators must produce the same trace hash."""
+    seed = int(os.environ.get("VERIF_SEED", "1"))
+    bad = 0
+    total = 0
+
+    def run(exe, prop, nworkers):
+        out = {}
+        procs = []
+        for w in range(nworkers):
+            idx = ",".join(str(i) for i in range(w, n, nworkers))
+            if not idx:
+                continue
+            procs.append(subprocess.Popen([exe, "worker", "--prop", prop, "--tier", "quick", "--seed", str(seed), "--only", idx],
+                                          stdout=subprocess.PIPE, stderr=subprocess.DEVNULL))
+        for p in procs:
+            o, _ = p.communicate()
+            for line in o.decode(errors="replace").splitlines():
+                if line.startswith("RES "):
+                    d = dict(kv.split("=", 1) for kv in line[4:].split() if "=" in kv)
+                    out[int(d["i"])] = (d["th"], d.get("viol"))
+        return out
+
+    plain, asan = build("plain"), build("asan")
+    for prop in props:
+        a = run(plain, prop, 1 if n <= 400 else 4)
+        b = run(plain, prop, 16)
+        c = run(plain, prop, 5)
+        d = run(asan, prop, 8) if prop not in ("C14",) else {}
+        for i in sorted(a):
+            total += 1
+            vals = {a.get(i), b.get(i), c.get(i)}
+            if d and i in d and prop != "C16":
+                vals.add(d.get(i))   # C16 heap budgets exist only in the plain variant
+            if len(vals) != 1:
+                bad += 1
+                if bad <= 10:
+                    log(f"SELFTEST mismatch prop={prop} index={i}: {vals}")
+        log(f"[selftest] {prop}: {len(a)} seeds x (1|4, 16, 5 workers plain" + (", 8 workers asan)" if d else ")") + f" compared")
+    log(f"[selftest] total={total} mismatches={bad}")
+    return 0 if bad == 0 else 2
+
+
 def main():
     if len(sys.argv) < 2:
         print(__doc__)
@@ -554,11 +750,20 @@ def main():
         for v in sys.argv[2:] or ["plain"]:
             build(v)
         return 0
+    if cmd == "selftest":
+        props = sys.argv[2].split(",") if len(sys.argv) > 2 else ["C01", "C03", "C04", "C05", "C06", "C07", "C08", "C09", "C10", "C14", "C15", "C17", "C18"]
+        return selftest(props, int(sys.argv[3]) if len(sys.argv) > 3 else 300)
+    if cmd == "check" and sys.argv[2] == "C19":
+        return check_c19(sys.argv[3] if len(sys.argv) > 3 else os.environ.get("VERIF_TIER", "quick"))
     if cmd == "check":
         return check(sys.argv[2], sys.argv[3] if len(sys.argv) > 3 else os.environ.get("VERIF_TIER", "quick"))
     if cmd == "replay":
         path = sys.argv[2]
         txt = open(path).read()
+        m19 = re.search(r"^c19 seed=(\d+) tier=(\S+) index=(\d+)", txt, re.M)
+        if m19:
+            os.environ["VERIF_SEED"] = m19.group(1)
+            return check_c19(m19.group(2), only=int(m19.group(3)))
         m = re.search(r"case prop=(\S+)", txt)
         prop = m.group(1) if m else "C01"
         variant = "plain"
